@@ -22,31 +22,21 @@ pub trait VerifBox {
 }
 
 /// Create the adapter for `area` (`c17`, ...).
+#[rustfmt::skip]
 pub fn new_box(area: &str) -> Option<Box<dyn VerifBox>> {
     match area {
-        "c17" => Some(Box::new(
-            crate::protocol::libp2p::kademlia::verif_c17::StoreBox::new(),
-        )),
+        "c17" => Some(Box::new(crate::protocol::libp2p::kademlia::verif_c17::StoreBox::new())),
         "c19" => Some(Box::new(c19::DecoderBox::new())),
-        "c14" => Some(Box::new(
-            crate::protocol::libp2p::kademlia::verif_c14_new(),
-        )),
+        "c14" => Some(Box::new(crate::protocol::libp2p::kademlia::verif_c14_new())),
         "c18" => Some(Box::new(c18::PeerIdBox::new())),
         "c04" => Some(Box::new(crate::substream::verif_c04::SubstreamBox::new())),
-        "c10" => Some(Box::new(
-            crate::transport::manager::handle::verif_c10::AddrBox::new(),
-        )),
+        "c10" => Some(Box::new(crate::transport::manager::handle::verif_c10::AddrBox::new())),
         "c03" => Some(Box::new(crate::multistream_select::verif_c03::MssBox::new())),
         "c07" => Some(Box::new(c07::C07Box::new())),
-        "c13" => Some(Box::new(
-            crate::protocol::request_response::verif_c13::RrBox::new(),
-        )),
+        "c13" => Some(Box::new(crate::protocol::request_response::verif_c13::RrBox::new())),
         "c02" => Some(Box::new(crate::crypto::noise::verif_c02::NoiseBox::new())),
-        "c16" => Some(Box::new(
-            crate::protocol::libp2p::kademlia::verif_c16::KadBox::new(),
-        "c20" => Some(Box::new(
-            crate::protocol::libp2p::bitswap::verif_c20::BitswapBox::new(),
-        )),
+        "c16" => Some(Box::new(crate::protocol::libp2p::kademlia::verif_c16::KadBox::new())),
+        "c20" => Some(Box::new(crate::protocol::libp2p::bitswap::verif_c20::BitswapBox::new())),
         _ => None,
     }
 }
